@@ -300,8 +300,18 @@ func (s *Server) referrerAdd(repo store.Repo, subject digest.Digest, desc types.
 			}
 		}()
 	}
-	// add descriptor to index and push into blob store
-	refResp.AddDesc(desc)
+	// add descriptor to the response and push into blob store
+	// the response is a list keyed by digest, annotations of a referrer are not tags or subjects of this list
+	found := false
+	for i := range refResp.Manifests {
+		if refResp.Manifests[i].Digest == desc.Digest {
+			refResp.Manifests[i] = desc
+			found = true
+		}
+	}
+	if !found {
+		refResp.Manifests = append(refResp.Manifests, desc)
+	}
 	iRaw, err := json.Marshal(refResp)
 	if err != nil {
 		return err
@@ -369,8 +379,12 @@ func (s *Server) referrerDelete(repo store.Repo, subject digest.Digest, desc typ
 	if err != nil {
 		return err
 	}
-	// remove descriptor from response
-	refResp.RmDesc(desc)
+	// remove descriptor from response, matching on the digest only
+	for i := len(refResp.Manifests) - 1; i >= 0; i-- {
+		if refResp.Manifests[i].Digest == desc.Digest {
+			refResp.Manifests = append(refResp.Manifests[:i], refResp.Manifests[i+1:]...)
+		}
+	}
 	// push response back to blob store with a new digest
 	refRespRaw, err = json.Marshal(refResp)
 	if err != nil {
